@@ -402,8 +402,30 @@ def concat_case(draw):
     return {"job": job, "a": a, "b": b}
 
 
+def large_concat_case(fmt):
+    words = ["ABCDEFGHIJKLMNOP", "Donaudampfschiff", "x", "und", "Zusammenhangsloses"]
+
+    def bank(start, count):
+        out = []
+        for i in range(start, start + count):
+            toks = [{"w": words[(i + k) % len(words)] + str(i % 7), "p": "NN", "n": k + 1, "e": "HD", "lem": "--", "m": "--"} for k in range(3)]
+            root = {"l": "VROOT", "e": "--", "c": [{"l": "NP", "e": "SB", "c": toks[:2]}, toks[2]]}
+            out.append({"sid": i + 1, "root": root})
+        return out
+    return {"job": {"kind": "transform", "src_fmt": fmt, "dest_fmt": "discobrackets", "trans": []}, "a": bank(0, 900), "b": bank(900, 1000)}
+
+
 def gen_concat(ctx):
     quick = ctx.tier == "quick"
+    if ctx.shard == 0:
+        # one large pair (files of ~90 and ~100 kB): sentence-locality must not depend on where a buffer boundary falls
+        for fmt in ("brackets", "export"):
+            case = large_concat_case(fmt)
+            try:
+                ctx.run_case(check_concat, case)
+            except Violation as vio:
+                ctx.record(vio)
+            ctx.count(key=("large", fmt), nontrivial=True, classes=["concat:large-" + fmt])
 
     def body(case):
         check_concat(case)
